@@ -551,6 +551,76 @@ def check_trace_property(prop, tier, seed, work, replay=None, scale=1.0):
     return 0
 
 
+# ------------------------------------------------------------------ self-test of the binding
+def selftest(work):
+    """Demonstrates that the trace specifications are bound to the recorded executions (DESIGN 3.5):
+    a corrupted observation, a dropped event and every named deviation must be rejected."""
+    specdir = copy_spec(work)
+    ok = True
+
+    def record(gname, groups, scale):
+        tdir = tempfile.mkdtemp(prefix="st_", dir=work)
+        sm = record_pass("C10", gname, groups, "quick", 7, scale, work, tdir)
+        return sm["files"][0]
+
+    def expect(label, res, want_line=None, at_or_after=None):
+        nonlocal ok
+        lines = [d["line"] for d in res["dis"]]
+        good = bool(lines) and (want_line is None or want_line in lines) and (at_or_after is None or min(lines) >= at_or_after)
+        log("  %-62s %s (disagreements at lines %s)" % (label, "rejected as expected" if good else "NOT REJECTED", lines[:4]))
+        ok = ok and good
+
+    # (i) + (ii) on each trace specification
+    cases = [("C02", ("main",), 0.05, SECP, "EAdd", lambda e: e["obs"]["E"][e["r"] - 1]["enc"].__setitem__(0, e["obs"]["E"][e["r"] - 1]["enc"][0] ^ 1)),   # the other root: -R for R
+             ("C06", ("main",), 0.02, SECP, "SMul", lambda e: e["obs"]["S"][e["r"] - 1].__setitem__(31, e["obs"]["S"][e["r"] - 1][31] ^ 1)),
+             ("C12", ("main", "field"), 0.02, FIELD, "FMul", lambda e: e["obs"]["F"][e["d"] - 1].__setitem__(31, e["obs"]["F"][e["d"] - 1][31] ^ 1)),
+             ("C15", ("main",), 0.2, ("TraceMem.tla", "TraceMem.cfg"), "MemCall", lambda e: e["bufs"][0]["after"].__setitem__(0, e["bufs"][0]["after"][0] ^ 1) if e["bufs"] else e["rets"][0].__setitem__("iv", [1, 10 ** 6])),
+             ("C19", ("main", "sched"), 0.5, ("TraceSched.tla", "TraceSched.cfg"), "Sched", lambda e: e["seq"].__setitem__(1000, e["seq"][1000] + 1))]
+    for gname, groups, scale, (tmod, tcfg), op, corrupt in cases:
+        f = record(gname, groups, scale)
+        lines = read_lines(f)
+        base = validate_one(specdir, f, work, 600, tmod, tcfg)
+        if base["dis"] or base["end"] is None:
+            log("  %s: the unmodified recording is not accepted -- cannot self-test" % gname)
+            ok = False
+            continue
+        idx = [i for i, l in enumerate(lines) if ('"op":"%s"' % op) in l[:40]]
+        if gname == "C19":
+            idx = idx[1:]       # the first run of a point only fixes the reference schedule
+        if gname == "C15":
+            idx = [i for i in idx if '"bufs":[{' in lines[i]]
+        if not idx:
+            log("  %s: no %s event recorded" % (gname, op))
+            ok = False
+            continue
+        k = idx[len(idx) // 2]
+        ev = json.loads(lines[k])
+        corrupt(ev)
+        g = os.path.join(work, "corrupt_%s.ndjson" % gname)
+        open(g, "w").write("\n".join(lines[:k] + [json.dumps(ev)] + lines[k + 1:]) + "\n")
+        expect("%s: one observed byte of a %s event flipped (line %d)" % (tmod, op, k + 1), validate_one(specdir, g, work, 600, tmod, tcfg), want_line=k + 1)
+        if tmod == "TraceSecp.tla" or tmod == "TraceField.tla":
+            g2 = os.path.join(work, "dropped_%s.ndjson" % gname)
+            open(g2, "w").write("\n".join(lines[:k] + lines[k + 1:]) + "\n")
+            expect("%s: the %s event of line %d dropped" % (tmod, op, k + 1), validate_one(specdir, g2, work, 600, tmod, tcfg), at_or_after=k + 1)
+
+    # (iii) every named deviation of the implementation-shaped modules must be caught by TLC
+    seen = set()
+    for prop, devs in sorted(DEVIATIONS.items()):
+        for (module, cfg, old, new) in devs:
+            if (module, cfg, new) in seen:
+                continue
+            seen.add((module, cfg, new))
+            txt = open(os.path.join(specdir, cfg)).read()
+            open(os.path.join(specdir, "DEV_" + cfg), "w").write(txt.replace(old, new))
+            r = run_mc(specdir, work, module, "DEV_" + cfg, timeout=400)
+            caught = "is violated" in r["out"]
+            log("  %-62s %s" % ("%s with %s" % (cfg, new), "violation found by TLC as expected" if caught else "NOT CAUGHT"))
+            ok = ok and caught
+    log("selftest: %s" % ("all rejections happened" if ok else "FAILED"))
+    return 0 if ok else 2
+
+
 # ------------------------------------------------------------------ entry point
 def main(argv):
     ap = argparse.ArgumentParser(prog="check")
@@ -559,9 +629,19 @@ def main(argv):
     ap.add_argument("--seed", type=int, default=int(os.environ.get("VERIF_SEED", "1") or 1))
     ap.add_argument("--replay")
     ap.add_argument("--keep", action="store_true")
+    ap.add_argument("--selftest", action="store_true")
     ap.add_argument("--scale", type=float, default=float(os.environ.get("VERIF_SCALE", "1.0")))
     a = ap.parse_args(argv)
     prop = a.prop
+    if a.selftest:
+        work = tempfile.mkdtemp(prefix="verif_selftest_")
+        try:
+            return selftest(work)
+        except Inconclusive as e:
+            log("INCONCLUSIVE: %s" % e)
+            return 2
+        finally:
+            shutil.rmtree(work, ignore_errors=True)
     if a.replay and not prop:
         prop = json.load(open(a.replay))["property"]
     if not prop:
